@@ -115,7 +115,6 @@ Definition S_on_stack_iff_ancestor : Prop := forall g flt roots known evs cf pre
 (** without filter, from fresh marks: the previsited nodes are exactly the nodes reachable
     from the roots, each once *)
 Definition S_spanning : Prop := forall fl g roots evs cf,
-  gwf g = true ->
   dfs fl g no_filter roots [] [] = DfsOk evs cf ->
   NoDup (pre_nodes evs)
   /\ forall v, In v (pre_nodes evs) <-> exists r, In r roots /\ rpath g r v.
